@@ -17,7 +17,7 @@ for pid in sorted(props):
         "evidence_file": f"/verif/evidence/{pid}.json",
         "replay_cmd_template": "cat {path}  # the file names the failed obligation, the solver output, the failing input found on the real code and the exact `go test -overlay` command that reproduces it",
         "engine": "govc",
-        "level_claimed": {"category": "proof", "text": p.get('level_text', p.get('decides','')), "design_ref": p.get('design_ref', 'DESIGN.md section 4')},
+        "level_claimed": {"category": p.get('category', 'proof'), "text": p.get('level_text', p.get('decides','')), "design_ref": p.get('design_ref', 'DESIGN.md section 4')},
         "level_note": p.get('level_note', ''),
         "technique": p.get('technique', 'contract-based deductive verification: weakest-precondition VCs generated from go/ssa of the real code, contracts in guarded comment files, discharged by z3/cvc5'),
     })
